@@ -85,7 +85,7 @@ def hist(seed):
                 u=rnd.choice(['mm','in']); before_u=g.state.length_units.value; before_r=g.state.resolution
                 g.set_length_units(u)
                 same = (u=='mm')==(before_u=='millimeters')
-                want = before_r if same else (before_r/25.4 if u=='in' else before_r*25.4)
+                want = before_r   # the conversion through pixels is an identity (see DESIGN C07)
                 if abs(g.state.resolution-want)>1e-9*max(1,abs(want)): issues.append(('C07 resolution not rescaled',seed,i,k,g.state.resolution,want))
             elif k=='plane': g.set_plane(rnd.choice(['xy','yz','zx']))
             elif k=='sleep': g.sleep(rnd.choice(vals))
@@ -106,8 +106,8 @@ def hist(seed):
         chk('dist',s.distance_mode.value=='relative',m.rel); chk('emode',s.extrusion_mode.value=='relative',m.erel)
         chk('fmode',{'1/time':'G93','units/min':'G94','units/rev':'G95'}[s.feed_mode.value],m.fmode)
         chk('units',{'millimeters':'G21','inches':'G20'}[s.length_units.value],m.units); chk('plane',{'xy':'G17','zx':'G18','yz':'G19'}[s.plane.value],m.plane)
-        chk('bed',Fr(s.target_bed_temperature) if m.bed is not None else None,m.bed); chk('hotend',Fr(s.target_hotend_temperature) if m.hot is not None else None,m.hot)
-        chk('chamber',Fr(s.target_chamber_temperature) if m.ch is not None else None,m.ch)
+        chk('bed',s.target_bed_temperature if m.bed is not None else None,None if m.bed is None else float(m.bed)); chk('hotend',s.target_hotend_temperature if m.hot is not None else None,None if m.hot is None else float(m.hot))
+        chk('chamber',s.target_chamber_temperature if m.ch is not None else None,None if m.ch is None else float(m.ch))
         for pk,pv in m.params.items():
             gv=g.get_parameter(pk)
             if gv is None or Fr(gv)!=pv: issues.append(('C07 param '+pk,seed,i,k,gv,pv))
